@@ -26,8 +26,60 @@ FULL_PHASE_MAX = 3   # one choice point per row (every phase vector) up to it
 
 
 class SeamError(BaseException):
-    """The library asked the random source for something the stand-in does
-    not model: the seam is not owned any more (harness error, no verdict)."""
+    """Kept for callers that still name it; the stand-ins no longer raise it:
+    a request they do not model falls through to the seeded default
+    generator (see `fallthrough`)."""
+
+
+# label -> number of calls of random functions that the stand-ins do not
+# enumerate (answered by the seeded default generator, no choice point)
+UNMODELLED = {}
+
+
+def fallthrough(label, name, default, log=None):
+    """Attribute `name` of the seeded default generator `default`, wrapped so
+    that every call is counted under UNMODELLED[label.name] (and logged for
+    the scripted control run).  The library may switch to another function
+    of numpy.random / random; the execution then stays deterministic (the
+    default generator is seeded per execution) and the invariants are still
+    judged, but these draws are not enumerated."""
+    if name.startswith("__"):
+        raise AttributeError(name)
+    f = getattr(default, name)
+    if not callable(f):
+        return f
+    key = "%s.%s" % (label, name)
+
+    def call(*a, **k):
+        UNMODELLED[key] = UNMODELLED.get(key, 0) + 1
+        out = f(*a, **k)
+        if log is not None:
+            log.append(("raw:" + name, np.array(out, copy=True)
+                        if isinstance(out, np.ndarray) else out))
+        return out
+    return call
+
+
+def unmodelled_snapshot():
+    return dict(UNMODELLED)
+
+
+def unmodelled_stats(snapshot):
+    """stats entries for the calls counted since `snapshot`."""
+    out = {}
+    for k, v in UNMODELLED.items():
+        d = v - snapshot.get(k, 0)
+        if d:
+            out["unmodelled_rng_calls"] = out.get(
+                "unmodelled_rng_calls", 0) + d
+            out["unmodelled_rng_calls:" + k] = d
+    return out
+
+
+def unmodelled_names(stats):
+    """The function names recorded by unmodelled_stats in summed stats."""
+    return sorted(k.split(":", 1)[1] for k in stats
+                  if k.startswith("unmodelled_rng_calls:"))
 
 
 # ---------------------------------------------------------------------------
@@ -150,7 +202,7 @@ class NumpyRandom:
         return out
 
     def __getattr__(self, name):
-        raise SeamError("surrogates.random.%s is not modelled" % name)
+        return fallthrough("numpy.random", name, self._d, self.log)
 
 
 class PyRandom:
@@ -173,7 +225,7 @@ class PyRandom:
         return None
 
     def __getattr__(self, name):
-        raise SeamError("timeseries ext random.%s is not modelled" % name)
+        return fallthrough("random", name, self._d, self.log)
 
 
 class ScriptEnd(Exception):
@@ -225,7 +277,12 @@ class Scripted:
         return None
 
     def __getattr__(self, name):
-        raise SeamError("scripted random.%s is not modelled" % name)
+        if name.startswith("__"):
+            raise AttributeError(name)
+
+        def call(*a, **k):
+            return self._next("raw:" + name)
+        return call
 
 
 # ---------------------------------------------------------------------------
